@@ -4,7 +4,7 @@
       the requested context, charCount, meta-variables, replacementOffsets in range), the output parsed
       (well-formed for the style), every `path:line:text` entry carries the text of that 1-based line.
    I: lines/startLine as the byte loops of display_context compute them. *)
-EXTENDS JsonOut, Json, IOUtils
+EXTENDS JsonOut, Merger, Json, IOUtils
 
 Recs == ndJsonDeserialize(IOEnv.TRACE)
 VARIABLES l, pFail
@@ -68,8 +68,23 @@ Reasons(r) ==
     \cup UNION { ItemReasons(r, r.items[k]) : k \in 1..Len(r.items) }
     \cup UNION { EntryReasons(r, r.entries[k]) : k \in 1..Len(r.entries) }
 
+\* ---- which lines the plain report prints (Merger.tla; beyond the statement of C16: reported, never an alarm) -------
+NLinesOf(f) == IF Len(f.lines) > 0 /\ f.lines[Len(f.lines)] = "" THEN Len(f.lines) - 1 ELSE Len(f.lines)
+TwinOf(r, path) == LET idx == SelectSeq([k \in 1..Len(r.twin) |-> k], LAMBDA k : r.twin[k].file = path) IN
+                   [j \in 1..Len(idx) |-> [s |-> r.twin[idx[j]].s, e |-> r.twin[idx[j]].e, sl |-> r.twin[idx[j]].sl, el |-> r.twin[idx[j]].el]]
+PrintedOf(r, path) == LET idx == SelectSeq([k \in 1..Len(r.entries) |-> k], LAMBDA k : r.entries[k].path = path) IN
+                      [j \in 1..Len(idx) |-> r.entries[idx[j]].line]
+MergerDrift(r) ==
+    IF r.style # "plain" \/ r.scan \/ r.rewrite \/ ~r.parsed THEN {}
+    ELSE UNION { LET f == r.files[k]  ms == TwinOf(r, f.path)  got == PrintedOf(r, f.path)  n == NLinesOf(f) IN
+                 IF ~WellNested(ms) THEN {}
+                 ELSE (IF { got[i] : i \in 1..Len(got) } = PrintedP(n, ms, r.before, r.after) /\ (\A i \in 1..(Len(got) - 1) : got[i] < got[i + 1])
+                       THEN {} ELSE {"ext:lines-printed-are-not-the-union-of-the-match-windows"})
+                      \cup (IF got = LinesOf(GroupsI(n, ms, r.before, r.after)) THEN {} ELSE {"merger-model"})
+               : k \in 1..Len(r.files) }
+
 \* the byte loops of display_context (I level) are compared on texts short enough for the quadratic operators
-Drift(r) ==
+Drift(r) == MergerDrift(r) \cup
     UNION { LET it == r.items[k]  f == FileOf(r, it.file) IN
             IF f.path = "" \/ Len(f.cw) > 120 \/ ~(it.range.s <= it.range.e /\ it.range.e <= LenB(f)) THEN {}
             ELSE LET c == DisplayContextI(f.cw, it.range.s, it.range.e, r.before, r.after) IN
